@@ -441,3 +441,39 @@ impl Check for C19 {
         ]
     }
 }
+
+/// Memory-safety tier: the watcher histories under an interpreter that checks every access
+/// (Miri). Run as `cargo +nightly miri run -- miri-c19 <n> [seed]`: no capture, no worker
+/// processes, just `n` seeded histories executed through the closure's call sequence and
+/// compared with fresh threads. A use of the reclaimed source text is reported by Miri itself.
+pub fn miri_tier(n: u64, seed: u64) -> i32 {
+    let check = C19;
+    let mut bad = 0;
+    for index in 0..n {
+        let scenario = check.generate(seed, index);
+        let stack = scenario.get_bool("stack").unwrap_or(false);
+        let texts: Vec<String> = scenario
+            .get_arr("events")
+            .unwrap_or(&[])
+            .iter()
+            .map(|e| e.get_str("text").unwrap_or("").to_string())
+            // Keep interpreted runs short
+            .filter(|t| t.len() < 1500)
+            .take(6)
+            .collect();
+        let seen = watcher(stack, texts.clone(), false);
+        for (i, rendered) in seen.iter().enumerate() {
+            let expected = fresh(stack, texts[i].clone());
+            if *rendered != expected {
+                println!("history {} re-check {} differs from a fresh assembly", index, i);
+                bad += 1;
+            }
+        }
+        println!("history {}: {} re-checks", index, seen.len());
+    }
+    if bad > 0 {
+        1
+    } else {
+        0
+    }
+}
